@@ -18,6 +18,7 @@ Simulated: the history of API calls inside one process.  Three modes:
  stream_dump - dump_all([v1..vn]) (objects shared across documents): the events of document i,
                anchors, tags and directives included, equal the events of dump_all([vi]).
 """
+import os
 import re
 import sys
 
@@ -251,6 +252,10 @@ def exc_summary(yaml, exc):
         d = observe.error(exc)
         if 'args' in d:
             d['args'] = [scrub(observe.jdump(a)) for a in d['args']]
+        try:
+            d['text'] = scrub(str(exc))[:2000]       # what the user reads (source name, snippet)
+        except Exception as exc2:
+            d['text'] = 'str() failed: %s' % type(exc2).__name__
         return d
     return {'class': type(exc).__name__, 'args': scrub(repr(exc.args))[:300]}
 
@@ -294,7 +299,8 @@ def make_source(text, op, log):
     if f and f['ch'] == 'r':
         fault = (f['at'], make_exc(f['kind']))
     chunk = op.get('chunk')
-    return SimReader(data, [], chunk, fault=fault, log=log)
+    # some streams carry the name of a file that exists (as an open file object does)
+    return SimReader(data, [], chunk, fault=fault, log=log, name=os.path.join(kernel.VERIF, 'check') if op.get('named') else None)
 
 
 def make_exc(kind):
@@ -305,9 +311,16 @@ def make_exc(kind):
     return SimError('simulated')
 
 
+WRAPPERS = {'safe_load': ('load', 'SafeLoader'), 'safe_load_all': ('load_all', 'SafeLoader'), 'full_load': ('load', 'FullLoader'),
+            'full_load_all': ('load_all', 'FullLoader'), 'unsafe_load': ('load', 'UnsafeLoader'),
+            'safe_dump': ('dump', 'SafeDumper'), 'safe_dump_all': ('dump_all', 'SafeDumper')}
+
+
 def run_op(yaml, op, ctx):
     """One complete API call.  Returns a JSON-able observation."""
     api = op['api']
+    if api in WRAPPERS:
+        return run_wrapper(yaml, op, ctx)
     obs = {'items': [], 'exc': None}
     log = []
     saved = (CURRENT['nested'], CURRENT['ctx'])
@@ -453,6 +466,33 @@ class EvolvingDocuments:
         return self.n
 
 
+def run_wrapper(yaml, op, ctx):
+    """The convenience wrappers (yaml.safe_load, yaml.safe_dump(..., **options), ...): same observation format."""
+    base, _cls = WRAPPERS[op['api']]
+    obs = {'items': [], 'exc': None}
+    try:
+        if base in ('load', 'load_all'):
+            src = make_source(doc_text(op), op, [])
+            res = getattr(yaml, op['api'])(src)
+            if base == 'load':
+                obs['items'].append(canon('load', res))
+            else:
+                for it in res:
+                    obs['items'].append(canon('load', it))
+        else:
+            opts = dict(OPTS[op.get('opts', 'none')])
+            payload = [ctx['values'][v] for v in op['vals']]
+            res = yaml.safe_dump(payload[0], **opts) if base == 'dump' else yaml.safe_dump_all(payload, **opts)
+            obs['returned'] = res if not isinstance(res, bytes) else {'bytes': res.hex()}
+    except kernel.Hang:
+        raise
+    except SimInterrupt:
+        raise
+    except BaseException as exc:
+        obs['exc'] = exc_summary(yaml, exc)
+    return obs
+
+
 def new_ctx():
     return {'values': make_values(), 'nested': []}
 
@@ -514,6 +554,8 @@ def gen_load_op(r, reent_ok=True):
     op = {'api': api, 'cls': cls, 'docs': docs, 'terminate': multi or len(docs) > 1, 'form': r.choice(['str', 'str', 'bytes', 'bstream', 'tstream'])}
     if op['form'].endswith('stream'):
         op['chunk'] = r.choice([1, 3, 7, 64, None])
+        if r.random() < 0.3:
+            op['named'] = True
     if reent_ok and api in ('load', 'load_all') and r.random() < 0.15 and not cls.endswith('BaseLoader'):
         op['cls'] = 'Reent' + cls
         op['docs'] = ['reent'] + (docs if multi else [])
@@ -559,7 +601,17 @@ VALUE_IDS = ['mixedkeys', 'unsorted', 'ukeys', 'plain', 'shared', 'shared_list',
 
 
 def gen_op(r, reent_ok=True):
-    return gen_load_op(r, reent_ok) if r.random() < 0.55 else gen_dump_op(r, reent_ok)
+    x = r.random()
+    if x < 0.08:
+        api = r.choice(sorted(WRAPPERS))
+        if WRAPPERS[api][0].startswith('load'):
+            multi = api.endswith('_all')
+            return {'api': api, 'cls': WRAPPERS[api][1], 'docs': [r.choice(DOC_IDS) for _ in range(r.randint(2, 3) if multi else 1)],
+                    'terminate': multi, 'form': r.choice(['str', 'bytes', 'bstream'])}
+        opts = r.choice(sorted(OPTS))
+        return {'api': api, 'cls': 'SafeDumper', 'opts': opts,
+                'vals': [r.choice([v for v in VALUE_IDS if not (v == 'set' and opts == 'unsorted')]) for _ in range(1 if api == 'safe_dump' else r.randint(1, 3))]}
+    return gen_load_op(r, reent_ok) if x < 0.58 else gen_dump_op(r, reent_ok)
 
 
 RELATED_VALUES = [['mixedkeys', 'unsorted', 'plain', 'nested'], ['shared', 'shared_list', 'rec', 'recm', 'obj_shared'],
@@ -1031,7 +1083,7 @@ def shift_node(n, dl, di):
 def shift_error(e, dl, di):
     if e is None:
         return None
-    e = dict(e)
+    e = {k: v for k, v in e.items() if k != 'text'}      # the message names the source and quotes absolute positions
     for k in ('context_mark', 'problem_mark'):
         if e.get(k) is not None:
             e[k] = shift_mark(e[k], dl, di)
@@ -1075,7 +1127,7 @@ def execute_stream_load(yaml, case, out):
         out['violations'].append({'class': 'stream-differs-from-isolated-documents', 'detail': {
             'case': case, 'first_difference_at': i, 'isolated': clip(expected[i] if i is not None and i < len(expected) else None),
             'in_stream': clip(got[i] if i is not None and i < len(got) else None), 'stream_error': clip(res['exc'])}})
-    elif res['exc'] != exp_err:
+    elif shift_error(res['exc'], 0, 0) != exp_err:
         out['violations'].append({'class': 'stream-error-differs-from-isolated-document', 'detail': {
             'case': case, 'isolated': clip(exp_err), 'in_stream': clip(res['exc'])}})
     out['log'] = observe.digest([got, res['exc']])
